@@ -85,8 +85,9 @@ def firstLine (ws : List Word) : Option Nat :=
   | w :: _ => w.line
   | [] => none
 
-def boolFalseSpellings : List Str := ["false".toList, "no".toList, "off".toList, "0".toList]
-def boolTrueSpellings : List Str := ["true".toList, "yes".toList, "on".toList, "1".toList]
+/-- the spelling tables of converters.bool_from_words — regenerated from the source -/
+def boolFalseSpellings : List Str := Gen.boolFalse.map String.toList
+def boolTrueSpellings : List Str := Gen.boolTrue.map String.toList
 
 /-- converters.bool_from_words -/
 def boolFromWords (ws : List Word) : R AttrVal :=
